@@ -180,7 +180,18 @@ def beta_read_vec(u, body):
         args.append(cur)
     if len(args) != 2 or not all(re.match(r'\s*\|r\|', a) for a in args):
         raise CutError('read_vec call does not have the shape read_vec(|r| SIZE, |r| ELEMENT) any more')
-    size_e, elem_e = (re.sub(r'^\s*\|r\|\s*', '', a).strip() for a in args)
+    def no_comments(t):
+        # the reduced call is put on one line: line comments inside the closure bodies have to go
+        m_, out, i = code_mask(t), [], 0
+        while i < len(t):
+            if t.startswith('//', i) and m_[i:i + 2].strip() == '':
+                j = t.find('\n', i)
+                i = len(t) if j < 0 else j
+                continue
+            out.append(t[i])
+            i += 1
+        return ''.join(out)
+    size_e, elem_e = (no_comments(re.sub(r'^\s*\|r\|\s*', '', a)).strip() for a in args)
     rv = u.src(LIB).cut_fn('read_vec')['body']
     if 'get_size(self)' not in rv or 'get_element(self)' not in rv:
         raise CutError('ClassRead::read_vec no longer has the shape get_size(self) / get_element(self)')
